@@ -86,7 +86,7 @@ def expected_accessors(addr, tags, args):
     T = "".join(t for t, _ in vals)
     return " S=%d N=%d T=%s G=%s I=%s" % (S, len(vals), hx(T.encode()),
                                           ",".join(v for _, v in vals) if vals else "-",
-                                          ",".join(t + v for t, v in vals) if vals else "-")
+                                          ",".join("%02x:%s" % (ord(t), v) for t, v in vals) if vals else "-")
 
 # ---- independent decoder for arbitrary bytes (C07) --------------------------
 class NonCanonical(Exception):
